@@ -80,6 +80,8 @@ def opts_source(opts, model, extra_first=()):
 def concretize(prog, pr, model=None):
     """-> dict(macro, attr_src, item_src, model, attr, item)"""
     model = model or path_model(pr)
+    if pr.notes['input']['mode'] == 'front':
+        return concretize_front(prog, pr, model)
     attr, item, ex2 = drive.rebuild_input(prog, pr)
     P = synprint.Printer(name_of=namer(model), resolve=lambda s: ex2.force(s))
     info = pr.notes['input']
@@ -244,3 +246,51 @@ def replay_dir(path):
                 return 1
     print('NOT REPRODUCED')
     return 0
+
+
+def concretize_front(prog, pr, model):
+    from . import front
+    info = pr.notes['input']
+    alpha, labels = front.attr_alphabet()
+    toks = []
+    for i in range(info['n']):
+        k = pr.decisions.get(f'a[{i}]', 0)
+        if k == 0:
+            break
+        toks.append(alpha[k - 1])
+    target = info['target']
+    item = drive.fixed_item(prog, target)
+    P = synprint.Printer(name_of=namer(model), resolve=lambda s: s)
+    item_toks = drive.item_tokens(prog, target, item, P)
+    return dict(macro=info['variant'], attr_src=front.tokens_source(toks), item_src=to_source(item_toks), model=model, attr=None, item=item,
+                item_flat=rsview.split_flat(item_toks), printer=P)
+
+
+def determinism_check(cases, name='s_determinism'):
+    """C20 replay: the same (attr, item) pairs expanded by the real macro (a) twice within one compiler process,
+    (b) in a second, fresh compiler process, (c) in reversed order in a third process. Every recorded output of one
+    (macro, attr, input) key must be identical.  -> (keys_compared, expansions, diffs[list of dict])"""
+    import itertools
+    good = [c for c in cases if c and 'error' not in c]
+    if not good:
+        return 0, 0, []
+    orders = [good + good, list(good), list(reversed(good))]
+    outputs = {}
+    n_exp = 0
+    for k, order in enumerate(orders):
+        recs, log, dt = expand_batch(order, f'{name}_{k}')
+        # touch the client source so that the next process really re-expands (fresh rustc, fresh hash seeds)
+        for r in recs:
+            n_exp += 1
+            key = json.dumps([rec_split(r['attr']), rec_split(r['input'])])
+            outputs.setdefault(key, []).append((k, json.dumps(rec_split(r['output'])) if 'output' in r else 'PANIC'))
+    diffs = []
+    for key, outs in outputs.items():
+        distinct = sorted({o for _, o in outs})
+        if len(distinct) > 1:
+            a, i = json.loads(key)
+            diffs.append(dict(attr=rsview.show(unsplit(a)), input=rsview.show(unsplit(i))[:300], n_distinct_outputs=len(distinct),
+                              runs=[k for k, _ in outs],
+                              first=rsview.show(unsplit(json.loads(distinct[0])))[:600] if distinct[0] != 'PANIC' else 'PANIC',
+                              second=rsview.show(unsplit(json.loads(distinct[1])))[:600] if distinct[1] != 'PANIC' else 'PANIC'))
+    return len(outputs), n_exp, diffs
